@@ -31,7 +31,8 @@ ASSUMPTIONS = [
 ]
 FLOORS = {
     "quick": {"readbacks": 28000, "views:reloaded": 5000, "views:disabled": 7000,
-              "multi-condition": 3000, "views:update": 3000, "names-as-bytes": 1500},
+              "multi-condition": 3000, "views:update": 3000, "names-as-bytes": 1500,
+              "custom-marker-prefixes": 3000},
     "thorough": {"readbacks": 1500000, "views:reloaded": 300000, "views:disabled": 300000,
                  "multi-condition": 100000, "views:update": 100000, "names-as-bytes": 70000},
 }
@@ -140,7 +141,8 @@ def evaluate(d):
     # names may be handed over as str or as UTF-8 bytes (the API takes both); what is read
     # back must not depend on it
     f, g = getattr(d, "_names", None) or ("f", "g")
-    fs = fl.FiltersSet("t")
+    pre = getattr(d, "_prefixes", None) or ()
+    fs = fl.FiltersSet("t", *pre)
     r = fl.call(fs.addfilter, f, list(d.conditions), list(d.actions), d.matchtype)
     if r[0] != "ret":
         return False, [], r
@@ -191,7 +193,7 @@ def evaluate(d):
         p = lab.sl_parser.Parser()
         o = lab.parse(t[1].encode("utf-8"), parser=p)
         if o.verdict() is True:
-            b = fl.FiltersSet("r")
+            b = fl.FiltersSet("r", *pre)
             if fl.call(b.from_parser_result, p)[0] == "ret":
                 reloaded = True
                 for what, how, detail in compare(d, read(b, fl._m(f))):
@@ -220,9 +222,15 @@ def run_shard(tier, shard, res: Result):
             if any(isinstance(n, bytes) for n in pair):
                 res.count("names-as-bytes")
         d._names = pair
+        if rng.random() < 0.4:
+            # the optional marker prefixes of the constructor (incl. ones with characters
+            # that are special to re / format strings)
+            from .c11 import PREFIXES
+            d._prefixes = rng.choice(PREFIXES[1:])
+            res.count("custom-marker-prefixes")
         built, viols, extra = evaluate(d)
         wit = {"conditions": d.conditions, "actions": d.actions, "matchtype": d.matchtype,
-               "names": list(d._names)}
+               "names": list(d._names), "prefixes": list(getattr(d, "_prefixes", None) or ())}
         if getattr(d, "_update", None) is not None:
             wit["update"] = {"conditions": d._update.conditions, "actions": d._update.actions,
                              "matchtype": d._update.matchtype}
@@ -286,6 +294,8 @@ def replay(witness, res: Result):
     d.actions = [tuple(a) for a in witness["actions"]]
     d.matchtype = witness["matchtype"]
     from ..core import unjson_bytes
+    if witness.get("prefixes"):
+        d._prefixes = tuple(witness["prefixes"])
     if witness.get("names"):
         d._names = tuple(unjson_bytes(n) for n in witness["names"])
     if witness.get("update"):
